@@ -577,19 +577,30 @@ func TestC16Termination(t *testing.T) {
 	// history (a nested upcasting replay, a plain replay, or both) before it converts; applying
 	// the chain still terminates with the composed result
 	if run.Shard == 0 {
-		for mode := 0; mode < 3; mode++ {
+		for mode := 0; mode < 5; mode++ {
 			cur = fmt.Sprintf("chain A -> B -> C whose first upcaster runs a nested replay (mode %d) on the same bus", mode)
+			if mode >= 3 {
+				cur = fmt.Sprintf("chain A -> B -> C whose first upcaster configures another bus (mode %d)", mode)
+			}
 			dog.Case(cur)
 			store := ebu.NewMemoryStore()
 			bus := ebu.New(ebu.WithStore(store))
+			other := ebu.New(ebu.WithStore(ebu.NewMemoryStore())) // a second bus: its registry is its own
 			depth, nestedSeen := 0, 0
 			ebu.RegisterUpcastFunc(bus, "A", "B", func(d json.RawMessage) (json.RawMessage, string, error) {
 				if depth == 0 {
 					depth++
-					if mode != 1 {
+					if mode == 3 {
+						ebu.RegisterUpcastFunc(other, "c16.other.a", "c16.other.b", func(d json.RawMessage) (json.RawMessage, string, error) { return d, "c16.other.b", nil })
+						nestedSeen++
+					} else if mode == 4 {
+						other.ClearUpcasts()
+						other.ClearUpcastsForType("A")
+						nestedSeen++
+					} else if mode != 1 {
 						bus.ReplayWithUpcast(context.Background(), ebu.OffsetOldest, func(*ebu.StoredEvent) error { nestedSeen++; return nil })
 					}
-					if mode != 0 {
+					if mode != 0 && mode < 3 {
 						bus.Replay(context.Background(), ebu.OffsetOldest, func(*ebu.StoredEvent) error { nestedSeen++; return nil })
 					}
 					depth--
